@@ -137,3 +137,789 @@ Section Lists.
     destruct (aeqb y x); [reflexivity | exact IH].
   Qed.
 End Lists.
+
+(* ---- every sequence of list operations ---- *)
+
+Section ListHistory.
+  Variable A : Type.
+  Variable emb : A -> value.
+  Variable aeqb : A -> A -> bool.
+  Hypothesis emb_eq : forall a b, rt_eq (emb a) (emb b) = aeqb a b.
+
+  (* operations of the plain model *)
+  Inductive lop :=
+  | LPush (x : A) | LPrepend (x : A) | LPop | LGet (i : Z) | LSet (i : Z) (x : A) | LLen
+  | LMap (f : A -> A) | LFilter (p : A -> bool) | LFold (g : A -> A -> A) (a0 : A) | LFind (p : A -> bool)
+  | LContains (x : A) | LLast.
+
+  (* what an operation lets the program observe *)
+  Inductive obs := ONone | OMaybe (o : option A) | OInt (z : Z) | OBool (b : bool) | OVal (a : A).
+
+  Definition l_step (op : lop) (l : list A) : list A * obs :=
+    match op with
+    | LPush x => (l_push l x, ONone)
+    | LPrepend x => (l_prepend l x, ONone)
+    | LPop => (fst (l_pop l), OMaybe (snd (l_pop l)))
+    | LGet i => (l, OMaybe (l_get l i))
+    | LSet i x => (l_set l i x, ONone)
+    | LLen => (l, OInt (Z.of_nat (length l)))
+    | LMap f => (map f l, ONone)
+    | LFilter p => (filter p l, ONone)
+    | LFold g a0 => (l, OVal (l_fold g a0 l))
+    | LFind p => (l, OMaybe (find p l))
+    | LContains x => (l, OBool (l_contains aeqb l x))
+    | LLast => (l, OMaybe (l_last l))
+    end.
+
+  Fixpoint l_run (ops : list lop) (l : list A) : list A * list obs :=
+    match ops with
+    | [] => (l, [])
+    | op :: ops' => let (l', o) := l_step op l in let (l'', os) := l_run ops' l' in (l'', o :: os)
+    end.
+
+  (* the same operations performed through the run-time library; functions are run-time functions *)
+  Inductive rlop :=
+  | RPush (x : value) | RPrepend (x : value) | RPop | RGet (i : Z) | RSet (i : Z) (x : value) | RLen
+  | RMap (f : value -> value) | RFilter (p : value -> bool) | RFold (g : value -> value -> value) (a0 : value)
+  | RFind (p : value -> bool) | RContains (x : value) | RLast.
+
+  Definition rt_lstep (op : rlop) (l : value) : res (value * value) :=
+    match op with
+    | RPush x => rmap (fun l' => (l', VLuaNil)) (rt_list_push l x)
+    | RPrepend x => rmap (fun l' => (l', VLuaNil)) (rt_list_prepend l x)
+    | RPop => rt_list_pop l
+    | RGet i => rmap (fun o => (l, o)) (rt_list_get l i)
+    | RSet i x => rmap (fun l' => (l', VLuaNil)) (rt_list_set l i x)
+    | RLen => rmap (fun o => (l, o)) (rt_len l)
+    | RMap f => rmap (fun l' => (l', VLuaNil)) (rt_list_map f l)
+    | RFilter p => rmap (fun l' => (l', VLuaNil)) (rt_list_filter p l)
+    | RFold g a0 => rmap (fun o => (l, o)) (rt_list_fold g a0 l)
+    | RFind p => rmap (fun o => (l, o)) (rt_list_find p l)
+    | RContains x => rmap (fun b => (l, VBool b)) (rt_list_contains l x)
+    | RLast => rmap (fun o => (l, o)) (rt_list_last l)
+    end.
+
+  Fixpoint rt_lrun (ops : list rlop) (l : value) : res (value * list value) :=
+    match ops with
+    | [] => Ok (l, [])
+    | op :: ops' =>
+        rbind (rt_lstep op l) (fun lo => rbind (rt_lrun ops' (fst lo)) (fun r => Ok (fst r, snd lo :: snd r)))
+    end.
+
+  (* the run-time operation is the plain one on embedded arguments; Sylt functions agree on embedded elements *)
+  Inductive op_rel : lop -> rlop -> Prop :=
+  | rel_push : forall x, op_rel (LPush x) (RPush (emb x))
+  | rel_prepend : forall x, op_rel (LPrepend x) (RPrepend (emb x))
+  | rel_pop : op_rel LPop RPop
+  | rel_get : forall i, op_rel (LGet i) (RGet i)
+  | rel_set : forall i x, (0 <= i)%Z -> op_rel (LSet i x) (RSet i (emb x))
+  | rel_len : op_rel LLen RLen
+  | rel_map : forall f fv, (forall a, fv (emb a) = emb (f a)) -> op_rel (LMap f) (RMap fv)
+  | rel_filter : forall p pv, (forall a, pv (emb a) = p a) -> op_rel (LFilter p) (RFilter pv)
+  | rel_fold : forall g gv a0, (forall a b, gv (emb a) (emb b) = emb (g a b)) -> op_rel (LFold g a0) (RFold gv (emb a0))
+  | rel_find : forall p pv, (forall a, pv (emb a) = p a) -> op_rel (LFind p) (RFind pv)
+  | rel_contains : forall x, op_rel (LContains x) (RContains (emb x))
+  | rel_last : op_rel LLast RLast.
+
+  Definition emb_obs (o : obs) : value :=
+    match o with
+    | ONone => VLuaNil
+    | OMaybe m => rep_maybe emb m
+    | OInt z => vint z
+    | OBool b => VBool b
+    | OVal a => emb a
+    end.
+
+  Lemma list_step_refines : forall op rop l, op_rel op rop ->
+    rt_lstep rop (rep_list A emb l) = Ok (rep_list A emb (fst (l_step op l)), emb_obs (snd (l_step op l))).
+  Proof.
+    intros op rop l H. destruct H; cbn [rt_lstep l_step fst snd emb_obs].
+    - rewrite list_push_refines. reflexivity.
+    - rewrite list_prepend_refines. reflexivity.
+    - rewrite list_pop_refines. reflexivity.
+    - rewrite list_get_refines. reflexivity.
+    - rewrite list_set_refines by assumption. reflexivity.
+    - rewrite list_len_refines. reflexivity.
+    - rewrite (list_map_refines A emb A emb fv f) by assumption. reflexivity.
+    - rewrite (list_filter_refines A emb pv p) by assumption. reflexivity.
+    - rewrite (list_fold_refines A emb A emb gv g) by assumption. reflexivity.
+    - rewrite (list_find_refines A emb pv p) by assumption. reflexivity.
+    - rewrite (list_contains_refines A emb aeqb emb_eq). reflexivity.
+    - rewrite list_last_refines. reflexivity.
+  Qed.
+
+  (* HISTORY FORM: every sequence of operations, by induction over the history *)
+  Theorem list_history_refines : forall ops rops l, Forall2 op_rel ops rops ->
+    rt_lrun rops (rep_list A emb l) =
+    Ok (rep_list A emb (fst (l_run ops l)), map emb_obs (snd (l_run ops l))).
+  Proof.
+    intros ops rops l H. revert l. induction H as [|op rop ops rops Hop _ IH]; intros l; simpl; [reflexivity|].
+    rewrite (list_step_refines op rop l Hop). simpl.
+    destruct (l_step op l) as [l' o]. simpl. rewrite IH.
+    destruct (l_run ops l') as [l'' os]. reflexivity.
+  Qed.
+End ListHistory.
+
+(* ------------------------------------------------------------------------------------------------ *)
+(* dicts and sets: Lua tables keyed by tostring(key)                                                 *)
+
+Section Keyed.
+  Variables K V X : Type.
+  Variable embK : K -> value.
+  Variable keqb : K -> K -> bool.
+  Hypothesis keqb_eq : forall k k', keqb k k' = true <-> k = k'.
+  (* KEY INJECTIVITY: different keys have different tostring images *)
+  Hypothesis key_inj : forall k k', rt_tostring (embK k) = rt_tostring (embK k') -> k = k'.
+  Variable h : K * V -> X.                       (* what is stored under tostring(k) *)
+
+  Definition ts (k : K) : string := rt_tostring (embK k).
+  Definition entry (kv : K * V) : string * X := (ts (fst kv), h kv).
+
+  Lemma ts_eqb : forall k k', String.eqb (ts k) (ts k') = keqb k k'.
+  Proof.
+    intros k k'. apply bool_eq_iff. rewrite String.eqb_eq, keqb_eq.
+    split; [apply key_inj | intros ->; reflexivity].
+  Qed.
+
+  Lemma tbl_set_keyed : forall k v m, tbl_set (ts k) (h (k, v)) (map entry m) = map entry (m_insert keqb k v m).
+  Proof.
+    intros k v. induction m as [|[k' v'] m IH]; simpl; [reflexivity|].
+    rewrite ts_eqb. destruct (keqb k k'); simpl; [reflexivity | rewrite IH; reflexivity].
+  Qed.
+
+  Lemma tbl_get_keyed : forall k m,
+    tbl_get (ts k) (map entry m) = option_map (fun v => h (k, v)) (m_lookup keqb k m).
+  Proof.
+    intros k. induction m as [|[k' v'] m IH]; simpl; [reflexivity|].
+    rewrite ts_eqb. destruct (keqb k k') eqn:E; [|exact IH].
+    apply keqb_eq in E. subst. reflexivity.
+  Qed.
+
+  Lemma tbl_del_keyed : forall k m, tbl_del (ts k) (map entry m) = map entry (m_remove keqb k m).
+  Proof.
+    intros k. induction m as [|[k' v'] m IH]; simpl; [reflexivity|].
+    rewrite ts_eqb. destruct (keqb k k'); simpl; [exact IH | rewrite IH; reflexivity].
+  Qed.
+
+  Lemma tbl_mem_keyed : forall k m, tbl_mem (ts k) (map entry m) = m_mem keqb k m.
+  Proof. intros. unfold tbl_mem, m_mem. rewrite tbl_get_keyed. destruct (m_lookup keqb k m); reflexivity. Qed.
+End Keyed.
+
+Section Dicts.
+  Variables K V : Type.
+  Variable embK : K -> value.
+  Variable embV : V -> value.
+  Variable keqb : K -> K -> bool.
+  Hypothesis keqb_eq : forall k k', keqb k k' = true <-> k = k'.
+  Hypothesis key_inj : forall k k', rt_tostring (embK k) = rt_tostring (embK k') -> k = k'.
+
+  Definition dict_h (kv : K * V) : value * value := (embK (fst kv), embV (snd kv)).
+  Definition rep_dict (m : pmap K V) : value := VDict (map (entry K V _ embK dict_h) m).
+
+  Lemma dict_new_refines : rt_dict_new = rep_dict [].
+  Proof. reflexivity. Qed.
+
+  Lemma dict_update_refines : forall m k v,
+    rt_dict_update (rep_dict m) (embK k) (embV v) = Ok (rep_dict (m_insert keqb k v m)).
+  Proof.
+    intros. unfold rep_dict, rt_dict_update.
+    rewrite <- (tbl_set_keyed K V _ embK keqb keqb_eq key_inj dict_h). reflexivity.
+  Qed.
+
+  Lemma dict_get_refines : forall m k,
+    rt_dict_get (rep_dict m) (embK k) = Ok (rep_maybe embV (m_lookup keqb k m)).
+  Proof.
+    intros. unfold rep_dict, rt_dict_get.
+    change (rt_tostring (embK k)) with (ts K embK k).
+    rewrite (tbl_get_keyed K V _ embK keqb keqb_eq key_inj dict_h).
+    destruct (m_lookup keqb k m); reflexivity.
+  Qed.
+
+  Lemma dict_len_refines : forall m, rt_len (rep_dict m) = Ok (vlen (m_size m)).
+  Proof. intros. unfold rep_dict, m_size. simpl. rewrite map_length. reflexivity. Qed.
+
+  Lemma dict_contains_key_refines : forall m k,
+    rt_dict_contains_key (rep_dict m) (embK k) = Ok (m_mem keqb k m).
+  Proof.
+    intros. unfold rt_dict_contains_key. rewrite dict_get_refines. unfold m_mem.
+    destruct (m_lookup keqb k m); reflexivity.
+  Qed.
+
+  (* dict_remove addresses the table with the RAW key: right for string keys ... *)
+  Lemma dict_remove_refines_str : forall m k, (exists s, embK k = VStr s) ->
+    rt_dict_remove (rep_dict m) (embK k) = Ok (rep_dict (m_remove keqb k m)).
+  Proof.
+    intros m k [s E]. unfold rep_dict, rt_dict_remove. rewrite E.
+    replace s with (ts K embK k) by (unfold ts; rewrite E; reflexivity).
+    rewrite (tbl_del_keyed K V _ embK keqb keqb_eq key_inj dict_h). reflexivity.
+  Qed.
+
+  (* ... and a no-op for every other key type *)
+  Lemma dict_remove_nonstr_noop : forall m k, (forall s, embK k <> VStr s) ->
+    rt_dict_remove (rep_dict m) (embK k) = Ok (rep_dict m).
+  Proof.
+    intros m k H. unfold rep_dict, rt_dict_remove. destruct (embK k); try reflexivity.
+    exfalso. exact (H s eq_refl).
+  Qed.
+
+  Lemma dict_from_list_refines : forall l,
+    rt_dict_from_list (VList (map (fun kv => VTuple [embK (fst kv); embV (snd kv)]) l))
+    = Ok (rep_dict (m_from_list keqb l)).
+  Proof.
+    intros l. unfold rt_dict_from_list, m_from_list. rewrite dict_new_refines. generalize (@nil (K * V)).
+    induction l as [|[k v] l IH]; intros m; [reflexivity|].
+    cbn [map fold_left fst snd rbind]. rewrite dict_update_refines. apply IH.
+  Qed.
+
+  (* ---- every sequence of dict operations ---- *)
+  Inductive dop := DUpdate (k : K) (v : V) | DRemove (k : K) | DGet (k : K) | DLen | DContains (k : K).
+  Inductive dobs := DONone | DOMaybe (o : option V) | DOInt (z : Z) | DOBool (b : bool).
+
+  Definition d_step (op : dop) (m : pmap K V) : pmap K V * dobs :=
+    match op with
+    | DUpdate k v => (m_insert keqb k v m, DONone)
+    | DRemove k => (m_remove keqb k m, DONone)
+    | DGet k => (m, DOMaybe (m_lookup keqb k m))
+    | DLen => (m, DOInt (Z.of_nat (m_size m)))
+    | DContains k => (m, DOBool (m_mem keqb k m))
+    end.
+
+  Fixpoint d_run (ops : list dop) (m : pmap K V) : pmap K V * list dobs :=
+    match ops with
+    | [] => (m, [])
+    | op :: ops' => let (m', o) := d_step op m in let (m'', os) := d_run ops' m' in (m'', o :: os)
+    end.
+
+  Definition rt_dstep (op : dop) (d : value) : res (value * value) :=
+    match op with
+    | DUpdate k v => rmap (fun d' => (d', VLuaNil)) (rt_dict_update d (embK k) (embV v))
+    | DRemove k => rmap (fun d' => (d', VLuaNil)) (rt_dict_remove d (embK k))
+    | DGet k => rmap (fun o => (d, o)) (rt_dict_get d (embK k))
+    | DLen => rmap (fun o => (d, o)) (rt_len d)
+    | DContains k => rmap (fun b => (d, VBool b)) (rt_dict_contains_key d (embK k))
+    end.
+
+  Fixpoint rt_drun (ops : list dop) (d : value) : res (value * list value) :=
+    match ops with
+    | [] => Ok (d, [])
+    | op :: ops' =>
+        rbind (rt_dstep op d) (fun lo => rbind (rt_drun ops' (fst lo)) (fun r => Ok (fst r, snd lo :: snd r)))
+    end.
+
+  Definition emb_dobs (o : dobs) : value :=
+    match o with
+    | DONone => VLuaNil
+    | DOMaybe m => rep_maybe embV m
+    | DOInt z => vint z
+    | DOBool b => VBool b
+    end.
+
+  Definition is_remove (op : dop) : bool := match op with DRemove _ => true | _ => false end.
+
+  Theorem dict_history_refines : forall ops m,
+    (forall k, exists s, embK k = VStr s) \/ existsb is_remove ops = false ->
+    rt_drun ops (rep_dict m) = Ok (rep_dict (fst (d_run ops m)), map emb_dobs (snd (d_run ops m))).
+  Proof.
+    induction ops as [|op ops IH]; intros m H; [reflexivity|].
+    assert (H' : (forall k, exists s, embK k = VStr s) \/ existsb is_remove ops = false).
+    { destruct H as [H|H]; [left; exact H | right; simpl in H; apply orb_false_iff in H; tauto]. }
+    assert (S : rt_dstep op (rep_dict m) = Ok (rep_dict (fst (d_step op m)), emb_dobs (snd (d_step op m)))).
+    { destruct op; cbn [rt_dstep d_step fst snd emb_dobs].
+      - rewrite dict_update_refines. reflexivity.
+      - destruct H as [H|H]; [|simpl in H; discriminate].
+        rewrite dict_remove_refines_str by apply H. reflexivity.
+      - rewrite dict_get_refines. reflexivity.
+      - rewrite dict_len_refines. reflexivity.
+      - rewrite dict_contains_key_refines. reflexivity. }
+    cbn [rt_drun d_run]. rewrite S. cbn [rbind fst snd].
+    destruct (d_step op m) as [m' o]. cbn [fst snd]. rewrite (IH m' H').
+    destruct (d_run ops m') as [m'' os]. reflexivity.
+  Qed.
+End Dicts.
+
+Section Sets.
+  Variable K : Type.
+  Variable embK : K -> value.
+  Variable keqb : K -> K -> bool.
+  Hypothesis keqb_eq : forall k k', keqb k k' = true <-> k = k'.
+  Hypothesis key_inj : forall k k', rt_tostring (embK k) = rt_tostring (embK k') -> k = k'.
+
+  Definition set_h (kv : K * unit) : value := embK (fst kv).
+  Definition rep_set (s : pset K) : value := VSet (map (entry K unit _ embK set_h) s).
+
+  Lemma set_new_refines : rt_set_new = rep_set [].
+  Proof. reflexivity. Qed.
+
+  Lemma set_add_refines : forall s k, rt_set_add (rep_set s) (embK k) = Ok (rep_set (s_add keqb k s)).
+  Proof.
+    intros. unfold rep_set, rt_set_add, s_add.
+    rewrite <- (tbl_set_keyed K unit _ embK keqb keqb_eq key_inj set_h). reflexivity.
+  Qed.
+
+  Lemma set_remove_refines : forall s k, rt_set_remove (rep_set s) (embK k) = Ok (rep_set (s_remove keqb k s)).
+  Proof.
+    intros. unfold rep_set, rt_set_remove, s_remove. change (rt_tostring (embK k)) with (ts K embK k).
+    rewrite (tbl_del_keyed K unit _ embK keqb keqb_eq key_inj set_h). reflexivity.
+  Qed.
+
+  Lemma set_contains_refines : forall s k, rt_set_contains (rep_set s) (embK k) = Ok (s_mem keqb k s).
+  Proof.
+    intros. unfold rep_set, rt_set_contains, s_mem. change (rt_tostring (embK k)) with (ts K embK k).
+    rewrite (tbl_mem_keyed K unit _ embK keqb keqb_eq key_inj set_h). reflexivity.
+  Qed.
+
+  Lemma set_len_refines : forall s, rt_len (rep_set s) = Ok (vlen (s_size s)).
+  Proof. intros. unfold rep_set, s_size. simpl. rewrite map_length. reflexivity. Qed.
+
+  Lemma set_from_list_refines : forall l,
+    rt_set_from_list (VList (map embK l)) = Ok (rep_set (s_from_list keqb l)).
+  Proof.
+    intros l. unfold rt_set_from_list, s_from_list. rewrite set_new_refines. generalize (@nil (K * unit)).
+    induction l as [|k l IH]; intros s; [reflexivity|].
+    cbn [map fold_left fst snd rbind]. rewrite set_add_refines. apply IH.
+  Qed.
+
+  Inductive sop := SAdd (k : K) | SRemove (k : K) | SContains (k : K) | SLen.
+  Inductive sobs := SONone | SOInt (z : Z) | SOBool (b : bool).
+
+  Definition s_step (op : sop) (s : pset K) : pset K * sobs :=
+    match op with
+    | SAdd k => (s_add keqb k s, SONone)
+    | SRemove k => (s_remove keqb k s, SONone)
+    | SContains k => (s, SOBool (s_mem keqb k s))
+    | SLen => (s, SOInt (Z.of_nat (s_size s)))
+    end.
+
+  Fixpoint s_run (ops : list sop) (s : pset K) : pset K * list sobs :=
+    match ops with
+    | [] => (s, [])
+    | op :: ops' => let (s', o) := s_step op s in let (s'', os) := s_run ops' s' in (s'', o :: os)
+    end.
+
+  Definition rt_sstep (op : sop) (s : value) : res (value * value) :=
+    match op with
+    | SAdd k => rmap (fun s' => (s', VLuaNil)) (rt_set_add s (embK k))
+    | SRemove k => rmap (fun s' => (s', VLuaNil)) (rt_set_remove s (embK k))
+    | SContains k => rmap (fun b => (s, VBool b)) (rt_set_contains s (embK k))
+    | SLen => rmap (fun o => (s, o)) (rt_len s)
+    end.
+
+  Fixpoint rt_srun (ops : list sop) (s : value) : res (value * list value) :=
+    match ops with
+    | [] => Ok (s, [])
+    | op :: ops' =>
+        rbind (rt_sstep op s) (fun lo => rbind (rt_srun ops' (fst lo)) (fun r => Ok (fst r, snd lo :: snd r)))
+    end.
+
+  Definition emb_sobs (o : sobs) : value :=
+    match o with SONone => VLuaNil | SOInt z => vint z | SOBool b => VBool b end.
+
+  Theorem set_history_refines : forall ops s,
+    rt_srun ops (rep_set s) = Ok (rep_set (fst (s_run ops s)), map emb_sobs (snd (s_run ops s))).
+  Proof.
+    induction ops as [|op ops IH]; intros s; [reflexivity|].
+    assert (S : rt_sstep op (rep_set s) = Ok (rep_set (fst (s_step op s)), emb_sobs (snd (s_step op s)))).
+    { destruct op; cbn [rt_sstep s_step fst snd emb_sobs].
+      - rewrite set_add_refines. reflexivity.
+      - rewrite set_remove_refines. reflexivity.
+      - rewrite set_contains_refines. reflexivity.
+      - rewrite set_len_refines. reflexivity. }
+    cbn [rt_srun s_run]. rewrite S. cbn [rbind fst snd].
+    destruct (s_step op s) as [s' o]. cbn [fst snd]. rewrite (IH s').
+    destruct (s_run ops s') as [s'' os]. reflexivity.
+  Qed.
+End Sets.
+
+(* ------------------------------------------------------------------------------------------------ *)
+(* key injectivity: proved for strings and for ints below 10^14, refuted beyond and for tuples        *)
+
+Lemma key_inj_str : forall s s', rt_tostring (VStr s) = rt_tostring (VStr s') -> s = s'.
+Proof. intros s s' H. exact H. Qed.
+
+(* value of a decimal digit string, most significant digit first *)
+Fixpoint dec_val (s : string) (acc : N) : N :=
+  match s with
+  | EmptyString => acc
+  | String c s' => dec_val s' (10 * acc + (N_of_ascii c - 48))%N
+  end.
+
+Lemma dec_val_app : forall s1 s2 a, dec_val (s1 ++ s2) a = dec_val s2 (dec_val s1 a).
+Proof. induction s1; intros; simpl; [reflexivity | apply IHs1]. Qed.
+
+Lemma string_app_assoc : forall a b c : string, ((a ++ b) ++ c = a ++ (b ++ c))%string.
+Proof. induction a; intros; simpl; [reflexivity | rewrite IHa; reflexivity]. Qed.
+
+Lemma n_to_dec_go_spec : forall fuel n acc, (n < 2 ^ N.of_nat fuel)%N -> (0 < fuel)%nat ->
+  exists c ds, n_to_dec_go fuel n acc = (String c ds ++ acc)%string /\ dec_val (String c ds) 0 = n /\
+               (48 <= N_of_ascii c)%N.
+Proof.
+  induction fuel as [|f IH]; intros n acc Hn Hf; [lia|].
+  cbn [n_to_dec_go]. pose proof (N.div_eucl_spec n 10) as E.
+  assert (R : (snd (N.div_eucl n 10) < 10)%N).
+  { change (snd (N.div_eucl n 10)) with (n mod 10)%N. apply N.mod_lt. discriminate. }
+  destruct (N.div_eucl n 10) as [q r]. simpl in R.
+  assert (D : N_of_ascii (ascii_of_N (48 + r)) = (48 + r)%N) by (apply N_ascii_embedding; lia).
+  set (d := ascii_of_N (48 + r)) in *.
+  destruct (N.eqb_spec q 0) as [Q|Q].
+  - exists d, EmptyString. subst q. split; [reflexivity|]. split; [|rewrite D; lia].
+    cbn [dec_val]. rewrite D. lia.
+  - assert (Hq : (q < 2 ^ N.of_nat f)%N).
+    { rewrite Nat2N.inj_succ, N.pow_succ_r' in Hn. lia. }
+    assert (Hf' : (0 < f)%nat).
+    { destruct f; [simpl in Hq; lia | lia]. }
+    destruct (IH q (String d acc) Hq Hf') as [c [ds [G [Vl C]]]].
+    exists c, (ds ++ String d EmptyString)%string. split; [|split; [|exact C]].
+    + rewrite G. cbn [append]. f_equal. rewrite string_app_assoc. reflexivity.
+    + change (String c (ds ++ String d EmptyString))
+        with (String c ds ++ String d EmptyString)%string.
+      rewrite dec_val_app, Vl. cbn [dec_val]. rewrite D. lia.
+Qed.
+
+Lemma n_to_dec_spec : forall n, exists c ds, n_to_dec n = String c ds /\ dec_val (String c ds) 0 = n /\
+                                             (48 <= N_of_ascii c)%N.
+Proof.
+  intros n. unfold n_to_dec.
+  destruct (n_to_dec_go_spec (S (N.to_nat (N.size n))) n EmptyString) as [c [ds [G H]]].
+  - rewrite Nat2N.inj_succ, N2Nat.id, N.pow_succ_r'. pose proof (N.size_gt n). lia.
+  - lia.
+  - exists c, ds. split; [|exact H]. rewrite G. clear.
+    change (String c ds ++ EmptyString)%string with (String c (ds ++ EmptyString)). f_equal.
+    induction ds; simpl; [reflexivity | rewrite IHds; reflexivity].
+Qed.
+
+Lemma z_to_dec_inj : forall z z', z_to_dec z = z_to_dec z' -> z = z'.
+Proof.
+  intros z z' H.
+  assert (P : forall p, exists c ds, n_to_dec (Npos p) = String c ds /\ dec_val (String c ds) 0 = Npos p /\
+                                     (48 <= N_of_ascii c)%N) by (intros; apply n_to_dec_spec).
+  destruct z as [|p|p], z' as [|p'|p']; simpl in H; try reflexivity.
+  - destruct (P p') as [c [ds [E [Vl C]]]]. rewrite E in H. rewrite <- H in Vl. simpl in Vl. discriminate.
+  - destruct (P p') as [c [ds [E [Vl C]]]]. rewrite E in H. simpl in H. inversion H.
+  - destruct (P p) as [c [ds [E [Vl C]]]]. rewrite E in H. rewrite H in Vl. simpl in Vl. discriminate.
+  - destruct (P p) as [c [ds [E [Vl C]]]]. destruct (P p') as [c' [ds' [E' [Vl' C']]]].
+    rewrite H in E. rewrite E in E'. rewrite E' in Vl. rewrite Vl in Vl'. inversion Vl'. reflexivity.
+  - destruct (P p) as [c [ds [E [Vl C]]]]. rewrite E in H. simpl in H. inversion H. subst c. simpl in C. lia.
+  - destruct (P p) as [c [ds [E [Vl C]]]]. rewrite E in H. simpl in H. inversion H.
+  - destruct (P p') as [c [ds [E [Vl C]]]]. rewrite E in H. simpl in H. inversion H. subst c. simpl in C. lia.
+  - destruct (P p) as [c [ds [E [Vl C]]]]. destruct (P p') as [c' [ds' [E' [Vl' C']]]].
+    simpl in H. inversion H as [H']. rewrite H' in E. rewrite E in E'. rewrite E' in Vl. rewrite Vl in Vl'.
+    inversion Vl'. reflexivity.
+Qed.
+
+Definition small (z : Z) : bool := (Z.abs z <? LuaLex.pow10 14)%Z.
+
+Lemma tostring_small_int : forall z, small z = true -> rt_tostring (vint z) = z_to_dec z.
+Proof.
+  intros z H. unfold vint. cbn [rt_tostring]. unfold fmt_g14. cbn [Qnum Qden].
+  destruct (Z.eqb_spec z 0) as [->|N]; [reflexivity|].
+  unfold small in H. change (q_is_int (z # 1)) with true. cbn [andb]. rewrite H. reflexivity.
+Qed.
+
+Theorem key_inj_small_int : forall z z', small z = true -> small z' = true ->
+  rt_tostring (vint z) = rt_tostring (vint z') -> z = z'.
+Proof.
+  intros z z' H H'. rewrite (tostring_small_int z H), (tostring_small_int z' H'). apply z_to_dec_inj.
+Qed.
+
+(* ints are 64-bit in Sylt and exact in a double up to 2^53, but %.14g keeps 14 digits *)
+Theorem key_inj_int_refuted : exists z z', z <> z' /\ rt_tostring (vint z) = rt_tostring (vint z').
+Proof.
+  exists 100000000000000%Z, 100000000000001%Z. split; [discriminate | vm_compute; reflexivity].
+Qed.
+
+(* the printed form of a tuple does not delimit its string components *)
+Theorem key_inj_tuple_str_refuted : exists a b c d : string,
+  (a, b) <> (c, d) /\ rt_tostring (VTuple [VStr a; VStr b]) = rt_tostring (VTuple [VStr c; VStr d]).
+Proof.
+  exists "a, b"%string, "c"%string, "a"%string, "b, c"%string. split; [discriminate | vm_compute; reflexivity].
+Qed.
+
+(* consequence at the level of the property: two different tuple keys share one dict entry *)
+Theorem dict_tuple_key_collision : exists k1 k2 v1 v2 d,
+  rt_eq k1 k2 = false /\
+  rbind (rt_dict_update rt_dict_new k1 v1) (fun d1 => rt_dict_update d1 k2 v2) = Ok d /\
+  rt_len d = Ok (vint 1) /\ rt_dict_get d k1 = Ok (mk_just v2).
+Proof.
+  exists (VTuple [VStr "a, b"; VStr "c"]), (VTuple [VStr "a"; VStr "b, c"]), (vint 1), (vint 2).
+  eexists. split; [vm_compute; reflexivity|]. split; [vm_compute; reflexivity|].
+  split; vm_compute; reflexivity.
+Qed.
+
+(* ints below 10^14 as a key type *)
+Definition small_int : Type := { z : Z | small z = true }.
+Definition emb_small (k : small_int) : value := vint (proj1_sig k).
+Definition small_eqb (a b : small_int) : bool := Z.eqb (proj1_sig a) (proj1_sig b).
+
+Lemma small_int_ext : forall a b : small_int, proj1_sig a = proj1_sig b -> a = b.
+Proof.
+  intros [a Ha] [b Hb]. simpl. intros ->. f_equal. apply UIP_dec. apply bool_dec.
+Qed.
+
+Lemma small_eqb_eq : forall a b, small_eqb a b = true <-> a = b.
+Proof.
+  intros a b. unfold small_eqb. rewrite Z.eqb_eq. split; [apply small_int_ext | intros ->; reflexivity].
+Qed.
+
+Lemma small_key_inj : forall a b, rt_tostring (emb_small a) = rt_tostring (emb_small b) -> a = b.
+Proof.
+  intros a b H. apply small_int_ext.
+  apply key_inj_small_int; [exact (proj2_sig a) | exact (proj2_sig b) | exact H].
+Qed.
+
+Lemma string_eqb_eq : forall a b : string, String.eqb a b = true <-> a = b.
+Proof. apply String.eqb_eq. Qed.
+
+(* the instances: every history on dicts/sets keyed by strings, and (without remove, for dicts) by ints *)
+Theorem dict_history_str_keys : forall (V : Type) (embV : V -> value) ops m,
+  rt_drun string V VStr embV ops (rep_dict string V VStr embV m) =
+  Ok (rep_dict string V VStr embV (fst (d_run string V String.eqb ops m)),
+      map (emb_dobs V embV) (snd (d_run string V String.eqb ops m))).
+Proof.
+  intros. apply (dict_history_refines string V VStr embV String.eqb string_eqb_eq key_inj_str).
+  left. intros k. exists k. reflexivity.
+Qed.
+
+Theorem dict_history_int_keys : forall (V : Type) (embV : V -> value) ops m,
+  existsb (is_remove small_int V) ops = false ->
+  rt_drun small_int V emb_small embV ops (rep_dict small_int V emb_small embV m) =
+  Ok (rep_dict small_int V emb_small embV (fst (d_run small_int V small_eqb ops m)),
+      map (emb_dobs V embV) (snd (d_run small_int V small_eqb ops m))).
+Proof.
+  intros. apply (dict_history_refines small_int V emb_small embV small_eqb small_eqb_eq small_key_inj).
+  right. assumption.
+Qed.
+
+Theorem set_history_str_keys : forall ops s,
+  rt_srun string VStr ops (rep_set string VStr s) =
+  Ok (rep_set string VStr (fst (s_run string String.eqb ops s)), map emb_sobs (snd (s_run string String.eqb ops s))).
+Proof. intros. apply (set_history_refines string VStr String.eqb string_eqb_eq key_inj_str). Qed.
+
+Theorem set_history_int_keys : forall ops s,
+  rt_srun small_int emb_small ops (rep_set small_int emb_small s) =
+  Ok (rep_set small_int emb_small (fst (s_run small_int small_eqb ops s)),
+      map emb_sobs (snd (s_run small_int small_eqb ops s))).
+Proof. intros. apply (set_history_refines small_int emb_small small_eqb small_eqb_eq small_key_inj). Qed.
+
+(* dict_remove with a key that is not a string removes nothing *)
+Theorem dict_remove_int_refuted : exists d k v d' d'',
+  rt_dict_update rt_dict_new k v = Ok d /\ rt_dict_remove d k = Ok d' /\ rt_len d' = Ok (vint 1) /\
+  rt_dict_get d' k = Ok (mk_just v) /\
+  (* while the plain map is empty afterwards *)
+  m_remove Z.eqb 1%Z (m_insert Z.eqb 1%Z 7%Z []) = [] /\ d'' = d'.
+Proof.
+  exists (VDict [("1"%string, (vint 1, vint 7))]), (vint 1), (vint 7). eexists. eexists.
+  split; [vm_compute; reflexivity|]. split; [vm_compute; reflexivity|].
+  split; [vm_compute; reflexivity|]. split; [vm_compute; reflexivity|]. split; reflexivity.
+Qed.
+
+(* lists of arbitrary run-time values: contains is membership up to == (structural equality by eq_struct) *)
+Theorem list_history_values : forall ops rops l, Forall2 (op_rel value (fun v => v)) ops rops ->
+  rt_lrun rops (VList l) =
+  Ok (VList (fst (l_run value rt_eq ops l)),
+      map (emb_obs value (fun v => v)) (snd (l_run value rt_eq ops l))).
+Proof.
+  intros ops rops l H.
+  pose proof (list_history_refines value (fun v => v) rt_eq (fun a b => eq_refl) ops rops l H) as R.
+  unfold rep_list in R. rewrite !map_id in R. exact R.
+Qed.
+
+Lemma vint_eq : forall a b, rt_eq (vint a) (vint b) = Z.eqb a b.
+Proof. intros. unfold vint. cbn [rt_eq]. unfold q_eqb. cbn [Qnum Qden]. apply andb_true_r. Qed.
+
+Theorem list_history_ints : forall ops rops l, Forall2 (op_rel Z vint) ops rops ->
+  rt_lrun rops (rep_list Z vint l) =
+  Ok (rep_list Z vint (fst (l_run Z Z.eqb ops l)), map (emb_obs Z vint) (snd (l_run Z Z.eqb ops l))).
+Proof. intros. apply (list_history_refines Z vint Z.eqb vint_eq). assumption. Qed.
+
+Theorem list_history_strs : forall ops rops l, Forall2 (op_rel string VStr) ops rops ->
+  rt_lrun rops (rep_list string VStr l) =
+  Ok (rep_list string VStr (fst (l_run string String.eqb ops l)),
+      map (emb_obs string VStr) (snd (l_run string String.eqb ops l))).
+Proof. intros. apply (list_history_refines string VStr String.eqb (fun a b => eq_refl)). assumption. Qed.
+
+(* key injectivity for tuples of small ints (the key type of tests/sylt_std/dict_simple.sy): stated,
+   not proved here; exercised by the correspondence and the oracle only *)
+Definition key_inj_int_tuple_statement : Prop :=
+  forall zs zs' : list Z, length zs = length zs' -> forallb small zs = true -> forallb small zs' = true ->
+  rt_tostring (VTuple (map vint zs)) = rt_tostring (VTuple (map vint zs')) -> zs = zs'.
+
+(* ------------------------------------------------------------------------------------------------ *)
+(* values made by the library vs the same values written in source                                   *)
+
+(* FULL-STRENGTH STATEMENT (property C18, second sentence), FALSE: a Maybe returned by the library is
+   == to the Maybe of the same content written in the program *)
+Definition lib_maybe_eq_statement : Prop :=
+  forall (l : list value) (i : Z) (r : value), rt_list_get (VList l) i = Ok r ->
+  rt_eq r (match l_get l i with Some x => mk_just x | None => src_none end) = true.
+
+(* the absent case: list_get / list_find / list_pop / dict_get / as_char build __VARIANT({"None", nil}),
+   `Maybe.None` compiles to __VARIANT{ "None", __NIL }, and nil == __NIL is false *)
+Theorem lib_none_eq_refuted :
+  rt_list_get (VList []) 0 = Ok lib_none /\ rt_list_pop (VList []) = Ok (VList [], lib_none) /\
+  rt_list_find (fun _ => true) (VList []) = Ok lib_none /\ rt_dict_get rt_dict_new (vint 0) = Ok lib_none /\
+  rt_eq lib_none src_none = false /\ rt_eq src_none lib_none = false /\ rt_neq lib_none src_none = true /\
+  vty (TMaybe TInt) src_none /\ ~ vty (TMaybe TInt) lib_none.
+Proof.
+  repeat split; try reflexivity. simpl. discriminate.
+Qed.
+
+Theorem lib_maybe_eq_false : ~ lib_maybe_eq_statement.
+Proof. intros H. specialize (H [] 0%Z lib_none eq_refl). discriminate H. Qed.
+
+(* the present case is fine *)
+Theorem lib_just_eq : forall t (l : list value) i x, Forall (vty t) l -> l_get l i = Some x ->
+  rt_list_get (VList l) i = Ok (mk_just x) /\ rt_eq (mk_just x) (mk_just x) = true /\ vty (TMaybe t) (mk_just x).
+Proof.
+  intros t l i x Hl Hg. pose proof (list_get_refines value (fun v => v) l i) as R.
+  unfold rep_list in R. rewrite map_id, Hg in R. split; [exact R|].
+  assert (Tx : vty t x).
+  { unfold l_get in Hg. destruct (0 <=? i)%Z; [|discriminate]. apply nth_error_In in Hg.
+    rewrite Forall_forall in Hl. auto. }
+  split; [|exact Tx]. unfold mk_just. cbn [rt_eq]. rewrite String.eqb_refl. apply (eq_refl_rt t x Tx).
+Qed.
+
+(* and everything that does not use == cannot tell the two Nones apart: case analysis (isJust, isNone,
+   orDefault, map go through __INDEX, which turns a nil payload into __NIL) and printing *)
+Theorem lib_none_case_ok :
+  rt_is_just lib_none = rt_is_just src_none /\ rt_is_none lib_none = rt_is_none src_none /\
+  (forall d, rt_or_default lib_none d = rt_or_default src_none d) /\
+  (forall f, rt_maybe_map f lib_none = rt_maybe_map f src_none) /\
+  rt_tostring lib_none = rt_tostring src_none /\
+  rt_index lib_none (vint 2) = rt_index src_none (vint 2).
+Proof. repeat split. Qed.
+
+(* Maybe helpers against `option` *)
+Definition maybe_abs (m : value) : option (option value) :=
+  match m with
+  | VVariant tag p =>
+      if String.eqb tag "Just" then Some (Some (match p with VLuaNil => VNil | _ => p end))
+      else if String.eqb tag "None" then Some None else None
+  | _ => None
+  end.
+
+Theorem maybe_helpers_refine : forall m o, maybe_abs m = Some o ->
+  rt_is_just m = Ok (match o with Some _ => true | None => false end) /\
+  rt_is_none m = Ok (match o with Some _ => false | None => true end) /\
+  (forall d, rt_or_default m d = Ok (match o with Some x => x | None => d end)) /\
+  (forall f, (forall x, f x <> VLuaNil) -> exists r, rt_maybe_map f m = Ok r /\ maybe_abs r = Some (option_map f o)).
+Proof.
+  intros m o H. destruct m; try discriminate. unfold maybe_abs in H.
+  unfold rt_is_none, rt_is_just, rt_or_default, rt_maybe_map.
+  destruct (String.eqb tag "Just").
+  - inversion H; subst. repeat split. intros f Hf. eexists. split; [reflexivity|]. simpl.
+    match goal with |- context [f ?a] => specialize (Hf a); destruct (f a) end; try reflexivity. congruence.
+  - destruct (String.eqb tag "None"); [|discriminate]. inversion H; subst. repeat split.
+    intros f _. eexists. split; reflexivity.
+Qed.
+
+(* ------------------------------------------------------------------------------------------------ *)
+(* math helpers                                                                                      *)
+
+Local Open Scope Z_scope.
+
+Lemma vint_lt : forall a b, rt_lt (vint a) (vint b) = Ok (a <? b).
+Proof. reflexivity. Qed.
+
+Theorem min_int : forall a b, rt_min (vint a) (vint b) = Ok (vint (Z.min a b)).
+Proof.
+  intros. unfold rt_min. rewrite vint_lt. cbn [rbind]. destruct (Z.ltb_spec a b).
+  - rewrite Z.min_l by lia. reflexivity.
+  - rewrite Z.min_r by lia. reflexivity.
+Qed.
+
+Theorem max_int : forall a b, rt_max (vint a) (vint b) = Ok (vint (Z.max a b)).
+Proof.
+  intros. unfold rt_max, rt_gt. rewrite vint_lt. cbn [rbind]. destruct (Z.ltb_spec b a).
+  - rewrite Z.max_l by lia. reflexivity.
+  - rewrite Z.max_r by lia. reflexivity.
+Qed.
+
+Theorem abs_int : forall a, rt_abs (vint a) = Ok (vint (Z.abs a)).
+Proof.
+  intros. unfold rt_abs. change (VNum q_zero) with (vint 0). rewrite vint_lt. cbn [rbind].
+  destruct (Z.ltb_spec a 0).
+  - rewrite Z.abs_neq by lia. reflexivity.
+  - rewrite Z.abs_eq by lia. reflexivity.
+Qed.
+
+Theorem clamp_int : forall x lo hi, rt_clamp (vint x) (vint lo) (vint hi) = Ok (vint (Z.min hi (Z.max x lo))).
+Proof. intros. unfold rt_clamp. rewrite max_int. cbn [rbind]. apply min_int. Qed.
+
+(* for a proper interval this is the usual clamp *)
+Theorem clamp_int_spec : forall x lo hi, lo <= hi ->
+  rt_clamp (vint x) (vint lo) (vint hi) = Ok (vint (z_clamp x lo hi)).
+Proof.
+  intros. rewrite clamp_int. f_equal. f_equal. unfold z_clamp.
+  destruct (Z.ltb_spec x lo); destruct (Z.ltb_spec hi x); lia.
+Qed.
+
+Theorem sign_int : forall a, rt_sign (vint a) = Ok (vint (Z.sgn a)).
+Proof.
+  intros. unfold rt_sign, rt_gt. change (VNum q_zero) with (vint 0). rewrite !vint_lt. cbn [rbind].
+  destruct (Z.ltb_spec 0 a).
+  - rewrite Z.sgn_pos by lia. reflexivity.
+  - cbn [rbind]. destruct (Z.ltb_spec a 0).
+    + rewrite Z.sgn_neg by lia. reflexivity.
+    + replace a with 0 by lia. reflexivity.
+Qed.
+
+Lemma q_floor_Qfloor : forall q, q_floor q = Qfloor q.
+Proof. intros [n d]. reflexivity. Qed.
+
+(* div: floor division, and 0 for a zero divisor -- Coq's Z.div *)
+Theorem div_int : forall a b, rt_idiv (vint a) (vint b) = Ok (vint (z_div a b)).
+Proof.
+  intros a b. unfold rt_idiv, z_div. change (VNum q_zero) with (vint 0). rewrite vint_eq.
+  destruct (Z.eqb_spec b 0) as [->|N].
+  - rewrite Zdiv_0_r. reflexivity.
+  - unfold rt_div, vint. cbn [rt_arith to_num]. cbn [num_op rmap].
+    assert (Z0 : q_is_zero (b # 1) = false) by (unfold q_is_zero; simpl; apply Z.eqb_neq; exact N).
+    rewrite Z0. cbn [rmap rbind]. f_equal. unfold vint. f_equal. f_equal.
+    unfold q_div. rewrite q_floor_Qfloor, (Qfloor_comp _ _ (Qred_correct _)). symmetry. apply Zdiv_Qdiv.
+Qed.
+
+Theorem floor_num : forall q, rt_floor (VNum q) = Ok (vint (Qfloor q)).
+Proof. intros. unfold rt_floor. cbn [to_num]. rewrite q_floor_Qfloor. reflexivity. Qed.
+
+Theorem floor_int : forall a, rt_floor (vint a) = Ok (vint a).
+Proof. intros. unfold vint. rewrite floor_num. simpl. rewrite Z.div_1_r. reflexivity. Qed.
+
+(* on rationals (Sylt float) *)
+Local Open Scope Q_scope.
+
+Theorem min_num : forall p q, rt_min (VNum p) (VNum q) = Ok (VNum (q_min_spec p q)).
+Proof.
+  intros. unfold rt_min, q_min_spec. cbn [rt_lt rbind]. destruct (Qlt_le_dec p q) as [L|L].
+  - apply q_ltb_Qlt in L. rewrite L. reflexivity.
+  - destruct (q_ltb p q) eqn:E; [|reflexivity]. apply q_ltb_Qlt in E. exfalso. exact (Qlt_not_le _ _ E L).
+Qed.
+
+Theorem max_num : forall p q, rt_max (VNum p) (VNum q) = Ok (VNum (q_max_spec p q)).
+Proof.
+  intros. unfold rt_max, rt_gt, q_max_spec. cbn [rt_lt rbind]. destruct (Qlt_le_dec q p) as [L|L].
+  - apply q_ltb_Qlt in L. rewrite L. reflexivity.
+  - destruct (q_ltb q p) eqn:E; [|reflexivity]. apply q_ltb_Qlt in E. exfalso. exact (Qlt_not_le _ _ E L).
+Qed.
+
+Theorem abs_num : forall p, rt_abs (VNum p) = Ok (VNum (q_abs_spec p)).
+Proof.
+  intros. unfold rt_abs, q_abs_spec. cbn [rt_lt rbind].
+  assert (Z0 : forall x, x < q_zero <-> x < 0) by (intros; reflexivity).
+  destruct (Qlt_le_dec p 0) as [L|L].
+  - apply Z0, q_ltb_Qlt in L. rewrite L. reflexivity.
+  - destruct (q_ltb p q_zero) eqn:E; [|reflexivity]. apply q_ltb_Qlt, Z0 in E. exfalso. exact (Qlt_not_le _ _ E L).
+Qed.
+
+Theorem sign_num : forall p, rt_sign (VNum p) = Ok (vint (q_sign_spec p)).
+Proof.
+  intros [n d]. unfold rt_sign, rt_gt, q_sign_spec. cbn [rt_lt rbind Qnum].
+  assert (P : q_ltb q_zero (n # d) = (0 <? n)%Z).
+  { apply bool_eq_iff. rewrite q_ltb_Qlt, Z.ltb_lt. unfold Qlt. simpl. lia. }
+  assert (N : q_ltb (n # d) q_zero = (n <? 0)%Z).
+  { apply bool_eq_iff. rewrite q_ltb_Qlt, Z.ltb_lt. unfold Qlt. simpl. lia. }
+  rewrite P, N. destruct (Z.ltb_spec 0 n).
+  - cbn [rbind]. rewrite Z.sgn_pos by lia. reflexivity.
+  - cbn [rbind]. destruct (Z.ltb_spec n 0).
+    + rewrite Z.sgn_neg by lia. reflexivity.
+    + replace n with 0%Z by lia. reflexivity.
+Qed.
